@@ -1,5 +1,6 @@
 """Twin execution: replica R runs the base schedule, replica S the same schedule plus injected faults
 (crash/restart, observers, observers-as-interrupts). The real code without the fault is the oracle.
+R runs first and is recorded; S runs afterwards and is compared with the record op by op.
 """
 import hashlib
 import json
@@ -73,9 +74,42 @@ def run_twin(case, compare_sections=('params', 'rg', 'flags', 'grads'), probe_fo
         failures.append({'clause': clause, 'sig': f'{method}:{culprit}:{what}', 'msg': msg})
 
     bseed = torch_seed(run_seed, 'build')
-    S = W.Replica(cfg, bseed, 'S')
+
+    def snapshot(reads):
+        out = {}
+        for sec, dct in reads.items():
+            out[sec] = {n: (v.clone() if isinstance(v, torch.Tensor) else v) for n, v in dct.items()}
+        return out
+
+    # ---- pass 1: the reference replica runs the whole base schedule (and its probe) BEFORE the subject exists,
+    # and everything it shows is recorded. Faults injected on S later can therefore not reach R through state
+    # shared between model instances (class attributes, module globals, caches): such a leak changes S only.
     R = W.Replica(cfg, bseed, 'R')
-    r0s, r0r = W.pure_reads(S.model), W.pure_reads(R.model)
+    r0r = snapshot(W.pure_reads(R.model))
+    rec = {}
+    ref_dead_at = None
+    for idx, op in enumerate(case['ops']):
+        k = op['op']
+        if k == 'crash_restart':
+            rec[idx] = {'graphs': drop_volatile(R.model)}
+            continue
+        if op.get('inject'):
+            continue
+        try:
+            o_ = W.apply_op(R, op, idx, run_seed, side_hook=None)
+        except Exception as e:
+            rec[idx] = {'exc': e}
+            ref_dead_at = idx
+            break
+        rec[idx] = {'obs': o_, 'reads': snapshot(W.pure_reads(R.model))}
+    pr = None
+    if ref_dead_at is None:
+        pr = W.full_probe(R, run_seed, forward_first=probe_forward_first)
+    del R
+
+    # ---- pass 2: the subject replica, with the faults
+    S = W.Replica(cfg, bseed, 'S')
+    r0s = W.pure_reads(S.model)
     d0 = W.compare_reads(r0s, r0r, ('params', 'bufs', 'rg', 'flags'))
     if d0:
         raise RuntimeError(f'harness: twin replicas differ right after construction: {d0[:3]}')
@@ -134,7 +168,7 @@ def run_twin(case, compare_sections=('params', 'rg', 'flags', 'grads'), probe_fo
                 break
             # relaxation: a crash loses volatile in-flight state (pending gradients, autograd graphs still
             # hanging on sampled-coefficient tensors); it is dropped on the reference as well
-            n_graphs = drop_volatile(R.model)
+            n_graphs = rec[idx]['graphs']
             if n_graphs:
                 bump('relax_autograd_graphs_dropped_on_reference', n_graphs)
             last_fault = 'restart'
@@ -181,7 +215,7 @@ def run_twin(case, compare_sections=('params', 'rg', 'flags', 'grads'), probe_fo
                 return W.apply_op(rep, op, idx, run_seed, side_hook=hook), None
             except Exception as e:
                 return None, e
-        obs_r, exc_r = run(R, None)
+        obs_r, exc_r = rec[idx].get('obs'), rec[idx].get('exc')
         if exc_r is not None:
             # the base schedule itself is not a legal history: stop (not a violation)
             bump('base_op_raised_on_reference')
@@ -226,7 +260,7 @@ def run_twin(case, compare_sections=('params', 'rg', 'flags', 'grads'), probe_fo
             fail('the search cannot continue after the fault: an op that succeeds on the reference raises',
                  'continue-raises', f'{op_label(op)} raised {type(exc_s).__name__}: {str(exc_s)[:200]}', culprit)
             break
-        rs_, rr_ = W.pure_reads(S.model), W.pure_reads(R.model)
+        rs_, rr_ = W.pure_reads(S.model), rec[idx]['reads']
         events.append(f'{idx} {op_label(op)} S={W.reads_digest(rs_)} R={W.reads_digest(rr_)} '
                       f'obs={hashlib.sha1(json.dumps(obs_s, sort_keys=True).encode()).hexdigest()[:10]}')
         if last_fault is not None:
@@ -250,7 +284,6 @@ def run_twin(case, compare_sections=('params', 'rg', 'flags', 'grads'), probe_fo
             bump('buffer_diverged_unflagged')
     # ---- final probe ------------------------------------------------------------------------------
     if not failures and not ref_dead:
-        pr = W.full_probe(R, run_seed, forward_first=probe_forward_first)
         ps = W.full_probe(S, run_seed, forward_first=probe_forward_first)
         events.append('probe R=' + hashlib.sha1(json.dumps(pr, sort_keys=True).encode()).hexdigest()[:12] +
                       ' S=' + hashlib.sha1(json.dumps(ps, sort_keys=True).encode()).hexdigest()[:12])
